@@ -31,7 +31,12 @@ def parse_body(text):
     tolerates (outside the domain of C02/C05), or hits an implementation limit.
     """
     try:
-        return ("ok", json.loads(text, parse_constant=_reject_constant))
+        value = json.loads(text, parse_constant=_reject_constant)
+        # a standard numeral beyond the double range (1e999) is read as an infinity: as an argument it makes the
+        # callable return a value that JSON cannot represent (outside C02/C05's domain); as an id it stays inside
+        if nonfinite_outside_ids(value):
+            return ("outside",)
+        return ("ok", value)
     except _NonStandard:
         return ("outside",)
     except RecursionError:
@@ -44,6 +49,34 @@ def parse_body(text):
         except RecursionError:
             return ("outside",)
         return ("outside",)
+
+
+def _nonfinite(x):
+    return type(x) is float and (x != x or x in (float("inf"), float("-inf")))
+
+
+def _has_nonfinite(x):
+    if type(x) is list:
+        return any(_has_nonfinite(v) for v in x)
+    if type(x) is dict:
+        return any(_has_nonfinite(v) for v in x.values())
+    return _nonfinite(x)
+
+
+def nonfinite_outside_ids(value):
+    entries = value if type(value) is list else [value]
+    for e in entries:
+        if type(e) is dict:
+            if any(_has_nonfinite(v) for k, v in e.items() if k != "id" or type(v) in (list, dict)):
+                return True
+        elif _has_nonfinite(e):
+            return True
+    return False
+
+
+def nonfinite_id(value):
+    entries = value if type(value) is list else [value]
+    return any(type(e) is dict and _nonfinite(e.get("id")) for e in entries)
 
 
 # ---------------------------------------------------------------------------
@@ -168,6 +201,9 @@ def ref_entry(entry, reg, server_version):
     if type(entry) is not dict:
         return Entry("invalid:not-object", Exp("error", "invalid", None, (-32600,), form=None))
     eid = entry.get("id") if "id" in entry else None
+    if _nonfinite(eid):
+        # an id that JSON cannot carry back (a numeral beyond the double range): not a usable id
+        return Entry("invalid:id-not-representable", Exp("error", "invalid", None, (-32600,)))
     if "jsonrpc" not in entry and "id" not in entry:
         return Entry("invalid:no-version-marker", Exp("error", "invalid", None, (-32600,)))
     method = entry.get("method")
